@@ -868,6 +868,10 @@ example : [stageMult (-1), stageMult 0, stageMult 1, stageMult 2] = Gen.stepMult
 /-- the stage the first request starts on, for 18 (declared maximum, ratio) pairs RUN on the real `vr_create` /
     `vr_set_io_ratio` by the generator (maxima ≤ 1, where `num_stages0 = 0 ≠ num_stages − 1`, included): the model's choice -/
 example : Gen.initialStages.all (fun c => (setIoRatio wcfg (init wcfg c.1) c.2.1 0).cur.sn == c.2.2) = true := by decide
+/-- which engines run the phase-matching all-pass on the up-sampling path (`num_stages0 ≠ 0`: declared maximum `> 1`),
+    PROBED on the real `vr_process` by the generator for 11 declared maxima (≤ 1, in (1, 2], exactly 2, above) -/
+example : Gen.halfPhaseProbe.all (fun c => (init wcfg c.1).halfPhase == c.2) = true := by decide
+example : Gen.halfPhaseProbe.length = 11 ∧ (Gen.halfPhaseProbe.filter (fun c => c.2)).length = 8 := by decide
 example : Gen.initialStages.length = 18 ∧ (Gen.initialStages.filter (fun c => c.2.2 == -1)).length ≥ 4 := by decide
 example : (two32 : Int) = (Gen.mult32 : Int) := by decide
 example : Gen.fadeLen = 2 * xfadeLen ∧ Gen.fadeLen % 2 = 0 := by decide
@@ -1061,6 +1065,35 @@ example : Quad { clk := 12884901888, step := 10307921512, ss := -28, len := 624,
     { clk := 6442450944, step := 2576980378, ss := -7, len := 312, sn := 0, isD := true } := by
   unfold Quad; decide
 
+/-- **The fade from the up-sampling stage up to stage 0 is aligned at a constant ratio.**  The new current stream (stage 0,
+    `poly_fir_fade_d`, run first) is the old one floored (`at >> 1`, `step >> 2`): the fade-out stream (`poly_fir_fade_u`) is
+    ahead by at most one unit, gaining at most 3 per pair; but it needs only ONE sample per frame, at the pair's first
+    sample, while the current stream has placed the pair's second sample — `step ≥ 2³¹` units later — inside the input
+    too.  So the fade-out stream always has its sample: no mismatch in the chunk of the switch, and none in any later
+    chunk of the fade as long as `step_step = 0` and the accumulated drift `d` (at most `1 + 3·512`) stays below `2·step`
+    (second part; `d` grows by 3 per frame delivered).  With a slew running the increments are floored separately every
+    frame; not covered. -/
+theorem fade_alignment_up_from_upsampling (s : St ρ) (occ0 olen mn mx : Int) (hsn : s.cur.sn = -1) (hd : s.cur.isD = false)
+    (hss : s.cur.ss = 0) (hstep : 8589934592 ≤ s.cur.step) (hlen : s.cur.len = shiftr occ0 s.cur.sn) (holen : olen ≤ chunkMax) :
+    (NearU (switchStage s 1 (switchOcc s 1 occ0)).cur (switchStage s 1 (switchOcc s 1 occ0)).fo 1 ∧
+     (kernels (switchStage s 1 (switchOcc s 1 occ0)) olen mn mx).mis = false ∧
+     NearU (kernels (switchStage s 1 (switchOcc s 1 occ0)) olen mn mx).st.cur (kernels (switchStage s 1 (switchOcc s 1 occ0)) olen mn mx).st.fo
+       (1 + 3 * ((kernels (switchStage s 1 (switchOcc s 1 occ0)) olen mn mx).od : Int))) ∧
+    (∀ (t : St ρ) (d : Int), t.fade ≠ 0 → t.cur.isD = true → t.fo.isD = false → NearU t.cur t.fo d →
+      d + 3 * max 0 (min olen (t.fade / 2)) ≤ 2 * t.cur.step →
+      (kernels t olen mn mx).mis = false ∧
+      NearU (kernels t olen mn mx).st.cur (kernels t olen mn mx).st.fo (d + 3 * ((kernels t olen mn mx).od : Int))) := by
+  obtain ⟨h1, h2, h3, h4, h5⟩ := switch_from_upsampling_near s occ0 hsn hd hss hstep hlen
+  have hc : (chunkMax : Int) = 64 := by decide
+  obtain ⟨k1, k2⟩ := kernels_near (switchStage s 1 (switchOcc s 1 occ0)) olen mn mx 1 h4 h2 h3 h1 (by omega)
+  exact ⟨⟨h1, k1, k2⟩, fun t d a b c e f => kernels_near t olen mn mx d a b c e f⟩
+
+/-- `NearU` at the moment of such a switch: an up-sampling stream at ratio 1.05 (`step = 2.1·2³²`, odd) and its floored
+    stage-0 successor -/
+example : NearU { clk := 3000000000, step := 2254857830, ss := 0, len := 500, sn := 0, isD := true }
+    { clk := 6000000001, step := 9019431321, ss := 0, len := 1000, sn := -1, isD := false } 1 := by
+  unfold NearU; decide
+
 /-! ### 7b. Fade alignment is still false for all runs: the up-switch fade (F41)
 
 At an up-switch the new (coarser) current stream is the old one *floored*: `at >> 1`, `step >> 1`.  The fade-out stream
@@ -1095,9 +1128,12 @@ theorem fade_alignment_fails_up_switch :
     before the repair of F35 grossly (`Historical.pre_fix_not_fade_alignment_for_all_runs`), and on the current code
     by the knife-edge witness above.  What does hold is proved: down-switch fades between down-sampling stages
     (`down_switch_fade_aligned_in_loop`, `fade_alignment_chunk_partial`: exact doubling), and fades between stage 0 and the
-    up-sampling stage in the downward direction (`fade_alignment_down_to_upsampling`: exact too).  Up-switch fades and the
-    snap during a fade round the two streams separately: there alignment holds unless a clock is within the
-    accumulated rounding of an input sample boundary at the moment the input runs out. -/
+    up-sampling stage in the downward direction (`fade_alignment_down_to_upsampling`: exact too), and in the upward
+    direction at a constant ratio (`fade_alignment_up_from_upsampling`: the up-sampling stream has half a frame of margin).
+    Up-switch fades between down-sampling stages (the witness above) and the snap at the end of a slew during a fade round
+    the two streams separately (`snap_sets_both_streams`: each `step = (int64)(r·step_mult + .5)` in its own units): there
+    alignment holds unless a clock is within the accumulated rounding of an input sample boundary at the moment the input
+    runs out — the same knife-edge, same signature (`nmis > 0`), same finding. -/
 theorem not_fade_alignment_for_all_runs :
     ¬ ∀ (mx : Nat) (ops : List (Op Nat)), (run wcfg { st := init wcfg mx } ops).nmis = 0 := by
   intro h
